@@ -16,4 +16,4 @@ partial def loop (h : IO.FS.Stream) (out : IO.FS.Stream) (w : World) : IO Unit :
 def main : IO Unit := do
   let stdin ← IO.getStdin
   let stdout ← IO.getStdout
-  loop stdin stdout ⟨[], []⟩
+  loop stdin stdout { files := [], stores := [] }
